@@ -29,8 +29,17 @@ def run_property(prop, repo, tier, ctx=None):
     if ctx is None:
         ctx = Ctx(repo)
     R = report.Rules(prop)
-    mod.run(ctx, R, tier)
-    R.finish()
+    ctx.__dict__["_shared_active"] = [prop]      # the property being decided takes no shared obligations from itself (report.run_shared)
+    ctx.__dict__["_shared_cut"] = False
+    try:
+        mod.run(ctx, R, tier)
+        R.finish()
+    except AnalysisError as x:
+        # what was established before the analysis stopped travels with the error: a violation found by a rule that completed is still a violation
+        x.partial = (R, ctx, getattr(mod, "EXPLANATION", ""))
+        raise
+    finally:
+        ctx.__dict__["_shared_active"] = []
     return R, ctx, getattr(mod, "EXPLANATION", "")
 
 
@@ -113,6 +122,21 @@ def main(argv=None):
             print("VIOLATION property=%s replay=%s" % (prop, path))
         return 1 if new else 0
     except AnalysisError as x:
+        part = getattr(x, "partial", None)
+        if part is not None and not str(x).startswith("self-test disagreement"):
+            # some anchor of this property's rules no longer describes the code, so the analysis is incomplete - but rules that did complete found violations: those are
+            # reported (exit 1); without any, the run stays what it is: not a verdict (exit 2)
+            R, ctx, explanation = part
+            new, kn, stale = classify(prop, R, report.load_known_findings())
+            if new:
+                print("note: the analysis of %s is incomplete on this tree (%s); the obligations below were decided before it stopped" % (prop, x))
+                for i, o in enumerate(new):
+                    path = report.write_report(prop, o, args.repo)
+                    if i < 12:
+                        d = o.detail if len(o.detail) <= 420 else o.detail[:200] + " ... " + o.detail[-200:]
+                        print("  %s  %s  %s\n      %s" % (o.loc, o.key, o.desc, d))
+                    print("VIOLATION property=%s replay=%s" % (prop, path))
+                return 1
         print("ANALYSIS-ERROR property=%s %s" % (prop, x))
         return 2
     except Exception:
